@@ -226,6 +226,9 @@ def simple_body(ctx: Ctx, p: Proc, callables: List[str]):
             body.append(f"call {c}()")
     if rng.random() < 0.3:
         body.append("continue")
+    if rng.random() < 0.25 and not ({"pure", "elemental"} & set(p.prefixes)):
+        # output with literals that hold the other quote character, `!`, `;` and `&`
+        body.append("print *, " + ", ".join(rng.sample(['"don\'t"', "'say \"hi'", '"it\'s ! no comment"', "'a;b & c'", '"x"', "'y'"], rng.randint(1, 3))))
     return body
 
 
